@@ -216,7 +216,7 @@ def generate(rng, opts=None):
             cur = cur[:-1]
         place[c] = '.'.join(cur)
     # independent variable component(s)
-    n_ivc_out = rng.randrange(1, 3)
+    n_ivc_out = o.nivc or rng.randrange(1, 3)
     ivc = {'id': 0, 'name': 'ivc', 'group': '', 'kind': 'ivc', 'ins': [], 'outs': [], 'A': [], 'b': [], 'd': [], 'storage': []}
     for k in range(n_ivc_out):
         shape = rng.choice(SHAPES)
@@ -518,12 +518,17 @@ SCALE_PAIRS = [(F(1), F(0)), (F(2), F(1)), (F(-1), F(0)), (F(1), F(3)), (F(1, 2)
 
 def add_output_scaling(rng, md, frac=.7):
     """solver scaling (ref, ref0, res_ref) on component outputs: scalars and arrays, positive and negative spans"""
+    # a fifth of the models scale residuals only (no output of the whole model has ref / ref0)
+    res_only = rng.random() < .2
     for o in md['outs']:
         if md['comps'][o['comp']]['kind'] == 'ivc' and rng.random() < .5:
             continue
         if rng.random() > frac:
             continue
         n = int(np.prod(o['shape']))
+        if res_only:
+            o['res_ref'] = rng.choice([rj(F(4)), rj(F(-2)), rj(F(1, 2)), {'arr': [rj(F(k + 2)) for k in range(n)]}])
+            continue
         ref, ref0 = rng.choice(SCALE_PAIRS)
         form = rng.randrange(4)          # 0: both scalar, 1: ref array, 2: ref0 array, 3: both arrays
         if form in (1, 3) and n > 1:
